@@ -31,6 +31,8 @@ def run(chk):
     for i, o in enumerate(ORDERS3):
         tasks.append(dict(n=3, order=o, via=ORDERS3[(i + 4) % 6] if i % 2 else None,
                           us_stride=1, us_offset=0))
+    # the same views after a variable ABOVE all others was declared and removed again
+    tasks.append(dict(n=3, order=ORDERS3[(chk.seed + 2) % 6], via=None, us_stride=1, us_offset=0, extra_top='zz'))
     if q:
         tasks.append(dict(n=4, order=ORDERS4[(chk.seed + 13) % 24], via=None,
                           us_stride=32, us_offset=chk.seed % 32))
